@@ -27,6 +27,11 @@ def main():
         mod.run(ctx)
     except core.LeanError as e:
         ctx.disagree('driver', str(e)[:500], None, None, 'Lean driver error')
+    except Exception as e:  # noqa — the implementation raised where the harness relies on documented behaviour
+        import traceback
+        tb = traceback.format_exc()
+        ctx.fail(f'{a.pid}/unexpected-exception', f'the implementation raised {type(e).__name__} in a call the harness relies on (the run stopped there)',
+                 {'seed': seed, 'tier': a.tier, 'rerun': f'VERIF_SEED={seed} ./check {a.pid} --tier {a.tier}'}, tb[-1500:])
     rc = core.finish(ctx, gate, level=getattr(mod, 'LEVEL', 'proof'), rule=getattr(mod, 'RULE', ''))
     sys.stdout.flush()
     os._exit(rc)
